@@ -10,6 +10,7 @@ pub struct Weights {
     pub new: u32,
     pub clone: u32,
     pub drop: u32,
+    pub drop_closure: u32,
     pub store: u32,
     pub adopt_slot: u32,
     pub unadopt: u32,
@@ -31,6 +32,7 @@ impl Weights {
             new: 8,
             clone: 8,
             drop: 16,
+            drop_closure: 3,
             store: 16,
             adopt_slot: 6,
             unadopt: 5,
@@ -63,6 +65,8 @@ pub struct GenCfg {
     /// probability (0..100) that a prefix edge is recorded (Full: always)
     pub adopt_pct: u32,
     pub prefix_pct: u32,
+    /// prefix edges may come with a Weak back edge stored in the target's value
+    pub weak_back: bool,
 }
 
 impl GenCfg {
@@ -77,8 +81,9 @@ impl GenCfg {
             dact_clone_own: false,
             dact_ops: true,
             cleanup: true,
-            adopt_pct: 88,
+            adopt_pct: 94,
             prefix_pct: 80,
+            weak_back: true,
         }
     }
 }
@@ -89,7 +94,8 @@ fn plain_op(wt: &Weights) -> BoxedStrategy<Op> {
         (wt.new, Just(Op::New(vec![])).boxed()),
         (wt.clone, s().prop_map(Op::CloneH).boxed()),
         (wt.drop, s().prop_map(Op::DropRoot).boxed()),
-        (wt.store, (s(), s(), 0u8..3).prop_map(|(owner, target, adopt)| Op::Store { owner, target, adopt }).boxed()),
+        (wt.drop_closure, s().prop_map(Op::DropClosureRoots).boxed()),
+        (wt.store, (s(), s(), 0u8..7).prop_map(|(owner, target, a)| Op::Store { owner, target, adopt: [0u8, 1, 1, 1, 2, 2, 2][a as usize] }).boxed()),
         (wt.adopt_slot, (s(), any::<bool>()).prop_map(|(pick, same_instance)| Op::AdoptSlot { pick, same_instance }).boxed()),
         (wt.unadopt, (s(), s()).prop_map(|(a, b)| Op::Unadopt { a, b }).boxed()),
         (
@@ -158,7 +164,7 @@ fn op(g: &GenCfg) -> BoxedStrategy<Op> {
     let wn = g.weights.new;
     let total: u32 = {
         let w = &g.weights;
-        w.new + w.clone + w.drop + w.store + w.adopt_slot + w.unadopt + w.remove + w.downgrade + w.clone_weak + w.drop_weak + w.upgrade + w.store_weak + w.remove_weak + w.weak_new + w.probe + w.consume * 15
+        w.new + w.clone + w.drop + w.drop_closure + w.store + w.adopt_slot + w.unadopt + w.remove + w.downgrade + w.clone_weak + w.drop_weak + w.upgrade + w.store_weak + w.remove_weak + w.weak_new + w.probe + w.consume * 15
     };
     let mut wt = g.weights.clone();
     wt.new = 0;
@@ -257,7 +263,7 @@ fn shape_edges(s: &Shape) -> (usize, Vec<(usize, usize)>) {
 /// Ops that build the shape: `n` News, then one Store per edge.  Handle list
 /// at that point = the n roots followed by the slots stored so far, so the
 /// selector for root i out of `len` handles is `sel_for(i, len)`.
-fn prefix_ops(n: usize, edges: &[(usize, usize)], adopt_flags: &[u8], dscripts: Vec<Vec<DAct>>, mode: Mode, adopt_pct: u32) -> Vec<Op> {
+fn prefix_ops(n: usize, edges: &[(usize, usize)], adopt_flags: &[u8], dscripts: Vec<Vec<DAct>>, mode: Mode, adopt_pct: u32, weak_back: bool) -> Vec<Op> {
     let mut ops = vec![];
     let mut ds = dscripts.into_iter();
     for _ in 0..n {
@@ -279,6 +285,13 @@ fn prefix_ops(n: usize, edges: &[(usize, usize)], adopt_flags: &[u8], dscripts: 
         };
         ops.push(Op::Store { owner: sel_for(a, len), target: sel_for(b, len), adopt });
         len += 1;
+        // optional Weak back edge: the target's value holds a Weak to the owner
+        if weak_back && f & 0x30 == 0x30 {
+            ops.push(Op::Downgrade(sel_for(a, len)));
+            // the new Weak is the last weak root; the owner of the slot is b
+            ops.push(Op::StoreWeak { owner: sel_for(b, len), w: 0xffff });
+            ops.push(Op::DropWeak(0xffff));
+        }
     }
     ops
 }
@@ -289,10 +302,11 @@ pub fn script(g: GenCfg) -> BoxedStrategy<Script> {
     let prefix_pct = g.prefix_pct;
     let cleanup = g.cleanup;
     let max_ops = g.max_ops;
+    let weak_back = g.weak_back;
     let pre = (0u32..100, shape(g.max_prefix_objs), vec(any::<u8>(), 24), vec(dscript(&g), 6)).prop_map(move |(p, sh, flags, ds)| {
         let sh = if p < prefix_pct { sh } else { Shape::None };
         let (n, e) = shape_edges(&sh);
-        prefix_ops(n, &e, &flags, ds, mode, adopt_pct)
+        prefix_ops(n, &e, &flags, ds, mode, adopt_pct, weak_back)
     });
     (pre, vec(op(&g), 0..max_ops), any::<u64>(), vec(any::<u16>(), 1..6)).prop_map(move |(mut p, ops, layout_seed, cl)| {
         p.extend(ops);
